@@ -539,7 +539,7 @@ func getTypeName(ident ir.LocalIdent) string {
 	if ident.IsUnnamed() {
 		return strconv.FormatInt(ident.LocalID, 10)
 	}
-	if x, err := strconv.ParseInt(ident.LocalName, 10, 64); err == nil {
+	if x, err := strconv.ParseInt(ident.LocalName, 10, 64); err == nil && strconv.FormatInt(x, 10) == ident.LocalName {
 		// Print LocalName with quotes if it is a number; e.g. %"42".
 		return fmt.Sprintf(`"%d"`, x)
 	}
